@@ -29,6 +29,9 @@ type K8s struct {
 	J                    *Journal
 	Nodes                map[string]*v1.Node
 	rv                   int
+	// OnConflict, if set, is called when an update is refused by an injected conflict: it plays
+	// the concurrent writer whose write caused the conflict (it may change the stored node)
+	OnConflict func(stored *v1.Node)
 }
 
 // NewK8s creates an empty API state.
@@ -116,6 +119,11 @@ func (c *nodeClient) update(kind string, node *v1.Node) (*v1.Node, error) {
 	if c.k.J.ShouldFail(KUpdate, node.Name) {
 		e.Err, e.Injected = "injected", true
 		c.k.J.Add(e)
+		if c.k.OnConflict != nil && cur != nil {
+			c.k.OnConflict(cur)
+			c.k.rv++
+			cur.ResourceVersion = fmt.Sprint(c.k.rv)
+		}
 		return nil, apierrors.NewConflict(nodeGR, node.Name, &InjectedErr{"update " + node.Name})
 	}
 	if cur == nil {
